@@ -358,14 +358,16 @@ func whereInitWorkingClause() ClauseHook {
 // whereSubjectClause returns an element hook that updates the subject
 // modifiers on the working graph clause.
 func whereSubjectClause() ElementHook {
-	var (
-		hook         ElementHook
-		lastNopToken *lexer.Token
-	)
+	var hook ElementHook
 	hook = func(st *Statement, ce ConsumedElement) (ElementHook, error) {
 		if ce.IsSymbol() {
 			return hook, nil
 		}
+		// The pending modifier token (AS, TYPE, ID, AT, ...) belongs to the statement
+		// being parsed, not to this closure: a grammar value may be reused for several
+		// statements and must not carry a token over from one to the next.
+		lastNopToken := st.lastNopTokens[nopSubject]
+		defer func() { st.lastNopTokens[nopSubject] = lastNopToken }()
 		tkn := ce.Token()
 		c := st.WorkingClause()
 		switch tkn.Type {
@@ -513,14 +515,16 @@ func processPredicateBound(ce ConsumedElement) (string, string, string, *time.Ti
 // wherePredicateClause returns an element hook that updates the predicate
 // modifiers on the working graph clause.
 func wherePredicateClause() ElementHook {
-	var (
-		hook         ElementHook
-		lastNopToken *lexer.Token
-	)
+	var hook ElementHook
 	hook = func(st *Statement, ce ConsumedElement) (ElementHook, error) {
 		if ce.IsSymbol() {
 			return hook, nil
 		}
+		// The pending modifier token (AS, TYPE, ID, AT, ...) belongs to the statement
+		// being parsed, not to this closure: a grammar value may be reused for several
+		// statements and must not carry a token over from one to the next.
+		lastNopToken := st.lastNopTokens[nopPredicate]
+		defer func() { st.lastNopTokens[nopPredicate] = lastNopToken }()
 		tkn := ce.Token()
 		c := st.WorkingClause()
 		switch tkn.Type {
@@ -585,14 +589,16 @@ func wherePredicateClause() ElementHook {
 // whereObjectClause returns an element hook that updates the object
 // modifiers on the working graph clause.
 func whereObjectClause() ElementHook {
-	var (
-		hook         ElementHook
-		lastNopToken *lexer.Token
-	)
+	var hook ElementHook
 	hook = func(st *Statement, ce ConsumedElement) (ElementHook, error) {
 		if ce.IsSymbol() {
 			return hook, nil
 		}
+		// The pending modifier token (AS, TYPE, ID, AT, ...) belongs to the statement
+		// being parsed, not to this closure: a grammar value may be reused for several
+		// statements and must not carry a token over from one to the next.
+		lastNopToken := st.lastNopTokens[nopObject]
+		defer func() { st.lastNopTokens[nopObject] = lastNopToken }()
 		tkn := ce.Token()
 		c := st.WorkingClause()
 		switch tkn.Type {
@@ -789,14 +795,16 @@ func whereFilterClause() ElementHook {
 // varAccumulator returns an element hook that updates the object
 // modifiers on the working graph clause.
 func varAccumulator() ElementHook {
-	var (
-		hook         ElementHook
-		lastNopToken *lexer.Token
-	)
+	var hook ElementHook
 	hook = func(st *Statement, ce ConsumedElement) (ElementHook, error) {
 		if ce.IsSymbol() {
 			return hook, nil
 		}
+		// The pending modifier token (AS, TYPE, ID, AT, ...) belongs to the statement
+		// being parsed, not to this closure: a grammar value may be reused for several
+		// statements and must not carry a token over from one to the next.
+		lastNopToken := st.lastNopTokens[nopProjection]
+		defer func() { st.lastNopTokens[nopProjection] = lastNopToken }()
 		tkn := ce.Token()
 		p := st.WorkingProjection()
 		switch tkn.Type {
